@@ -59,6 +59,7 @@ impl Parser {
                 vec![]
             }
             AssertEqual => {
+                check_comparable(instruction.operation, &inps[0], &inps[1])?;
                 if inps[0] != inps[1] {
                     return Err(Error::Other(format!(
                         "assertion violated: {:?} == {:?}",
@@ -68,6 +69,7 @@ impl Parser {
                 vec![]
             }
             AssertNotEqual => {
+                check_comparable(instruction.operation, &inps[0], &inps[1])?;
                 if inps[0] == inps[1] {
                     return Err(Error::Other(format!(
                         "assertion violated: {:?} != {:?}",
@@ -76,7 +78,10 @@ impl Parser {
                 }
                 vec![]
             }
-            IsEqual => vec![IrValue::Bool(inps[0] == inps[1])],
+            IsEqual => {
+                check_comparable(instruction.operation, &inps[0], &inps[1])?;
+                vec![IrValue::Bool(inps[0] == inps[1])]
+            }
             Add => vec![add_offcircuit(&inps[0], &inps[1])?],
             Sub => vec![sub_offcircuit(&inps[0], &inps[1])?],
             Mul => vec![mul_offcircuit(&inps[0], &inps[1])?],
@@ -107,5 +112,17 @@ impl Parser {
         };
 
         insert_many(&mut self.memory, &instruction.outputs, &outputs)
+    }
+}
+
+/// Equality operations are supported on two values of the same type, for all
+/// types except `JubjubScalar` (as in-circuit).
+fn check_comparable(op: crate::Operation, x: &IrValue, y: &IrValue) -> Result<(), Error> {
+    use IrValue::*;
+    match (x, y) {
+        (Bool(_), Bool(_)) | (Native(_), Native(_)) | (BigUint(_), BigUint(_)) => Ok(()),
+        (JubjubPoint(_), JubjubPoint(_)) => Ok(()),
+        (Bytes(v), Bytes(w)) if v.len() == w.len() => Ok(()),
+        _ => Err(Error::Unsupported(op, vec![x.get_type(), y.get_type()])),
     }
 }
